@@ -6,6 +6,7 @@ from ..model import AnalysisError, Program, walk_function, parent, dotted_name
 from ..guards import norm, call_name, const_str, known_instance, tag_equalities
 from ..facts import Fn, CORE, assigned_from, enclosing_loops, enclosing_stmt
 from ..effects import world, call_closure, direct_writes
+from .. import guards as G
 from . import shared as S
 from . import helpers_rules as H
 from .shared import fn, fn_of
@@ -58,6 +59,36 @@ def r18_1_cycles(ctx, rid='R18.1'):
                 'the node is not recorded as an ancestor before its children are visited')
         r.check(all(any(norm(x) == anc for x in c.args) for c in rec), 'the same ancestor set is passed down', g.key('ancestors-passed'),
                 g.loc(), 'the recursive calls do not receive the ancestor set')
+        # the node leaves the ancestor set again on every normal exit after it was entered: otherwise a node referenced twice
+        # by siblings ([*a, *a]) is reported as containing itself although the document is a tree
+        rems = {g.nid(c) for c in g.walk() if isinstance(c, ast.Call) and isinstance(c.func, ast.Attribute) and norm(c.func.value) == anc
+                and c.func.attr in ('remove', 'discard') and c.args and norm(c.args[0]) in ('id(%s)' % node, node)}
+        okrem = bool(adds) and bool(rems)
+        for a_ in adds:
+            for rn in g.cfg.returns():
+                if rn in g.cfg.reachable(g.nid(a_)) and not g.cfg.must_pass(g.nid(a_), rn, rems):
+                    okrem = False
+        r.check(okrem, 'the node is removed from the ancestor set on every normal exit after it was entered', g.key('ancestors-remove'),
+                g.loc(), 'a node stays in the ancestor set after its subtree was checked: a second, sibling reference to the same anchored '
+                'node (`[*a, *a]`, `{x: *a, y: *a}`) is rejected as self-referential although its expansion loads')
+        # early exits before the descent are taken only for nodes that cannot contain anything (scalars) or were checked already
+        done = g.fi.params[3] if len(g.fi.params) > 3 else None
+        allowed = {'isinstance(%s, yaml.ScalarNode)' % node}
+        if done is not None:
+            allowed |= {'id(%s) in %s' % (node, done), '%s in %s' % (node, done)}
+        first_rec = [g.nid(c) for c in rec]
+        for ret in g.returns():
+            if any(g.cfg.dominates(x, g.nid(ret)) for x in first_rec) or any(g.nid(a_) is not None and g.cfg.dominates(g.nid(a_), g.nid(ret)) for a_ in adds):
+                continue
+            inner = g.cfg.guard_nodes(g.nid(ret))
+            okx = bool(inner)
+            for b in inner[-1:]:
+                t = b.ast
+                alts = t.values if isinstance(t, ast.BoolOp) and isinstance(t.op, ast.Or) else [t]
+                okx = b.pol and all(G.canon_atom(x) in {(a_, True) for a_ in allowed} for x in alts)
+            r.check(okx, 'the early exit is taken only for scalars and nodes already checked', g.key('early-exit'), g.loc(ret),
+                    'the cycle check returns before descending under %s: collections are skipped and `&a [*a]` exhausts the stack again'
+                    % [('' if b.pol else 'not ') + norm(b.ast) for b in inner[-1:]])
     r.done()
 
 
